@@ -41,12 +41,12 @@ func (valdec sliceDecoder) Decode(dec *Decoder, p interface{}, tag byte) {
 	case TagList:
 		count := dec.readCount()
 		slice := reflect2.PtrOf(p)
-		n := dec.prealloc(count)
+		n := dec.preallocList(count, valdec.et.Size())
 		valdec.t.UnsafeGrow(slice, n)
 		dec.AddReference(p)
 		for i := 0; i < count && dec.Error == nil; i++ {
 			if i == n {
-				// more elements than the input buffered at the start could justify: grow as they arrive
+				// more elements than the count alone could justify: grow as they arrive
 				if n = n * 2; n > count {
 					n = count
 				}
